@@ -431,7 +431,16 @@ def run_mutant(prop, name, rel, old, new, runs=None):
     scratch = '/dev/shm/zsim-mut-%d-%s' % (os.getpid(), name)
     shutil.rmtree(scratch, ignore_errors=True)
     try:
-        shutil.copytree('/repo/src', os.path.join(scratch, 'src'))
+        if os.environ.get('ZSIM_MUTANTS_FROM_HEAD'):
+            # the committed tree (so that work in /repo's working tree --
+            # applying seeded patches -- does not leak into the mutants)
+            os.makedirs(scratch)
+            ar = subprocess.run(['git', '-C', '/repo', 'archive', 'HEAD',
+                                 'src'], stdout=subprocess.PIPE, check=True)
+            subprocess.run(['tar', '-x', '-C', scratch], input=ar.stdout,
+                           check=True)
+        else:
+            shutil.copytree('/repo/src', os.path.join(scratch, 'src'))
         apply(os.path.join(scratch, 'src'), rel, old, new)
         env = dict(os.environ, ZSIM_REPO_SRC=os.path.join(scratch, 'src'),
                    ZSIM_EVIDENCE_DIR=os.path.join(scratch, 'evidence'))
